@@ -413,3 +413,13 @@ v("rule-eq-ignores-weight", ["C06", "C02"], "cfg.py", "            isinstance(ot
 v("nullable-by-metric", ["C06", "C08"], "cfg.py", "                null_weight[x] == self.R.zero or x == self.S", "                self.R.metric(null_weight[x], self.R.zero) <= 1e-12 or x == self.S", "TOL-SITE")
 v("separate-start-consults-trim", ["C07", "C06"], "cfg.py", "        if self.S in {y for r in self for y in r.body}:", "        if self.S in {y for r in self.trim() for y in r.body}:", "LIVE-RULES")
 v("derivative-level-dropped", ["C03"], "cfg.py", "                        slash(r.body[k], a),", "                        Slash(r.body[k], a, 0),", "ACCUM-DELTA")
+
+# ------------------------------------------------------------------ fresh-name wrappers (C06)
+v("wrappers-bot-namedtuple", ["C06"], "cfg.py",
+  None, None, "NS-WRAPPERS",
+  edits=[('Slash = namedtuple("Slash", "Y, Z, i")\n', 'Slash = namedtuple("Slash", "Y, Z, i")\n\nBot = namedtuple("Bot", "x")\n'), ("            return x if x in acyclic else (x, \"bot\")", "            return x if x in acyclic else Bot(x)")])
+v("wrappers-benign-tagged", ["C06"], "cfg.py",
+  "            return x if x in acyclic else (x, \"bot\")", "            return x if x in acyclic else (x, \"bottom\")", None)
+v("wrappers-benign-bot2", ["C06"], "cfg.py",
+  None, None, None,
+  edits=[('Slash = namedtuple("Slash", "Y, Z, i")\n', 'Slash = namedtuple("Slash", "Y, Z, i")\n\nBot = namedtuple("Bot", "x, tag")\n'), ("            return x if x in acyclic else (x, \"bot\")", "            return x if x in acyclic else Bot(x, \"bot\")")])
